@@ -199,12 +199,12 @@ theorem normInf_nonneg (v : List α) : 0 ≤ normInf v :=
 
 /-- `m_kkt ≤ ε` says exactly that each of the KKT conditions the code evaluates holds within `ε` (on the prepared program):
     `G x − h ≤ ε`, `|A x − b| ≤ ε`, `u ≥ −ε`, `|uᵢ (G x − h)ᵢ| ≤ ε`, `|∇f(x) + Aᵀv + Gᵀu| ≤ ε` — the last one only when the
-    program has at least one constraint (see `kktTest`) -/
-theorem kktTest_le_iff (P : Prog α) (x u v : List α) (eps : α) :
-    kktTest P x u v ≤ eps ↔ 0 ≤ eps ∧
+    caller stated at least one constraint (see `kktTest`) -/
+theorem kktTest_le_iff (P : Prog α) (unc : Bool) (x u v : List α) (eps : α) :
+    kktTest P unc x u v ≤ eps ↔ 0 ≤ eps ∧
       (P.G ≠ [] → (∀ a ∈ slack P x, a ≤ eps) ∧ (∀ a ∈ u, -a ≤ eps) ∧ ∀ a ∈ hmul u (slack P x), |a| ≤ eps) ∧
       (P.A ≠ [] → ∀ a ∈ vsub (mv P.A x) P.b, |a| ≤ eps) ∧
-      (P.G ≠ [] ∨ P.A ≠ [] → ∀ a ∈ lagGrad P x u v, |a| ≤ eps) := by
+      (unc = false → ∀ a ∈ lagGrad P x u v, |a| ≤ eps) := by
   unfold kktTest
   dsimp only
   by_cases h0 : 0 ≤ eps
@@ -212,27 +212,20 @@ theorem kktTest_le_iff (P : Prog α) (x u v : List α) (eps : α) :
       intro a
       rw [abs_of_nonneg (le_max_right a 0), max_le_iff]
       exact ⟨fun h => h.1, fun h => ⟨h, h0⟩⟩
-    by_cases hG : P.G = [] <;> by_cases hA : P.A = []
-    · simp [hG, hA, h0]
-    · have hA' : P.A.isEmpty = false := by cases h : P.A <;> simp_all
-      simp [hG, hA, hA', cmax_eq_max, normInf_le_iff, h0]
-    · have hG' : P.G.isEmpty = false := by cases h : P.G <;> simp_all
-      simp only [hG', hA, List.isEmpty_nil, if_true, if_false, Bool.false_eq_true, cmax_eq_max, max_le_iff, Bool.false_and]
-      simp [hG, normInf_le_iff, h0, pm]
-      tauto
-    · have hG' : P.G.isEmpty = false := by cases h : P.G <;> simp_all
-      have hA' : P.A.isEmpty = false := by cases h : P.A <;> simp_all
-      simp only [hG', hA', if_false, Bool.false_eq_true, cmax_eq_max, max_le_iff, Bool.false_and]
+    cases unc <;> by_cases hG : P.G = [] <;> by_cases hA : P.A = []
+    all_goals
+      have hG' : P.G.isEmpty = decide (P.G = []) := by cases h : P.G <;> simp
+      have hA' : P.A.isEmpty = decide (P.A = []) := by cases h : P.A <;> simp
+      simp only [hG', hA', hG, hA, decide_true, decide_false, if_true, if_false, Bool.false_eq_true, cmax_eq_max, max_le_iff]
       simp [hG, hA, normInf_le_iff, h0, pm]
-      tauto
+    all_goals try tauto
   · constructor
     · intro h
       exfalso
       apply h0
       refine le_trans ?_ h
-      by_cases hG : P.G.isEmpty <;> by_cases hA : P.A.isEmpty <;>
-        simp only [hG, hA, if_true, if_false, Bool.false_eq_true, cmax_eq_max, le_refl, Bool.and_self, Bool.and_false,
-          Bool.false_and]
+      cases unc <;> by_cases hG : P.G.isEmpty <;> by_cases hA : P.A.isEmpty <;>
+        simp only [hG, hA, if_true, if_false, Bool.false_eq_true, cmax_eq_max, le_refl]
       all_goals exact le_max_of_le_right (normInf_nonneg _)
     · intro h; exact absurd h.1 h0
 
